@@ -14,6 +14,7 @@ CONSTANTS
   Weak_AbsenceRawKey = FALSE
   Weak_NoParamsHashCompare = FALSE
   Weak_ValsNotHashed = TRUE
+  Weak_BackwardsTargetNotRechecked = FALSE
   Weak_SearchProofFromCachedBlock = FALSE
 INIT CaseInit
 NEXT CaseNext
